@@ -9,12 +9,12 @@ VARIABLE tid
 tvars == <<vars, tid>>
 R == TraceLog[tid]
 TInit == /\ tid \in 1..Len(TraceLog)
-         /\ type = R.type /\ owner = R.owner /\ scope = R.scope /\ member = R.member
+         /\ type = R.type /\ owner = R.owner /\ scope = R.scope /\ member = R.member /\ mholder = R.mholder
          /\ actor = R.actor /\ admin = R.admin /\ op = R.op
          /\ phase = "created" /\ exists = TRUE /\ changed = FALSE /\ outcome = "none"
 TNext == Next /\ UNCHANGED tid
 TSpec == TInit /\ [][TNext]_tvars
-See == CanSee(R.actor, R.admin, R.owner, R.scope, R.type, R.member)
+See == CanSee(R.actor, R.admin, R.owner, R.scope, R.type, R.member, R.mholder)
 Chg == CanChange(R.actor, R.admin, R.owner)
 Report == /\ (phase = "created") =>
                PrintT(<<"case", tid,
